@@ -41,6 +41,7 @@ TARGETS = {
     "c13_q2":     ("mpi", ["harness/c13_q2.cpp"], True),
     "c13_dg":     ("mpi", ["harness/c13_dg.cpp"], True),
     "c13_blocked": ("mpi", ["harness/c13_blocked.cpp"], True),
+    "c13_stokes": ("mpi", ["harness/c13_stokes.cpp"], True),
     "c05_streams": ("nompi", ["harness/c05_streams.cpp"], False),
     "c05_checkpoint": ("mpi", ["harness/c05_checkpoint.cpp"], True),
     "c11_mesh":   ("nompi", ["harness/c11_mesh.cpp"], False),
@@ -49,7 +50,7 @@ TARGETS = {
 PROPERTY_TARGETS = {
     "C17": ["c17_fence", "c17_asm"],
     "C12": ["c12_domain"],
-    "C13": ["c13_scalar", "c13_app", "c13_app_neumann", "c13_q2", "c13_dg", "c13_blocked"],
+    "C13": ["c13_scalar", "c13_app", "c13_app_neumann", "c13_q2", "c13_dg", "c13_blocked", "c13_stokes"],
     "C05": ["c05_streams", "c05_checkpoint"],
     "C11": ["c11_mesh", "c11_pmap"],
     "SIMMPI": ["simmpi_selftest"],
